@@ -185,6 +185,34 @@ Theorem C05_coupler_roundtrip (A St : Type) (ms : list (codec A St)) (X R : list
 Proof. exact (coupler_roundtrip A St ms X R). Qed.
 Print Assumptions C05_coupler_roundtrip.
 
+(* in that round trip every sub-model's own unflattenX is handed exactly the values its own flattenX
+   produced - no more (sub-models whose instructions reshape what they are given rely on it), wherever
+   the model sits in the list *)
+Theorem C05_coupler_args_exact (A St : Type) (ms : list (codec A St)) (X R : list St) :
+  length X = length ms -> length R = length ms ->
+  cunflatten_args A St ms (snd (cflatten A St ms X)) (fst (cflatten A St ms X)) R
+  = map (fun mx => fl A St (fst mx) (snd mx)) (combine ms X).
+Proof. exact (coupler_args_exact A St ms X R). Qed.
+Print Assumptions C05_coupler_args_exact.
+
+(* overridden instructions of the kind kawin ships (reshape to the reference shape) and instructions
+   whose shape follows from the data (reshape(-1, c)) are consistent on exactly their own values; the
+   first kind fails on anything longer *)
+Theorem C05_strict_codec_consistent (A : Type) (x ref : state A) :
+  signature A ref = signature A x -> consistent A (state A) (strict_codec A) x ref.
+Proof. exact (strict_codec_consistent A x ref). Qed.
+Print Assumptions C05_strict_codec_consistent.
+
+Theorem C05_greedy_codec_consistent (A : Type) (c : nat) (d : list A) (ref : state A) :
+  (length d mod c = 0)%nat -> consistent A (state A) (greedy_codec A c) [Arr d] ref.
+Proof. exact (greedy_codec_consistent A c d ref). Qed.
+Print Assumptions C05_greedy_codec_consistent.
+
+Theorem C05_strict_codec_rejects_extra (A : Type) (x : state A) (extra : list A) :
+  extra <> [] -> unfl A (state A) (strict_codec A) (flatten A x ++ extra) x = None.
+Proof. exact (strict_codec_rejects_extra A x extra). Qed.
+Print Assumptions C05_strict_codec_rejects_extra.
+
 Theorem C05_default_codec_consistent (A : Type) (x ref : state A) :
   signature A ref = signature A x -> consistent A (state A) (default_codec A) x ref.
 Proof. exact (unflatten_flatten A x ref). Qed.
